@@ -42,17 +42,17 @@ type Src struct {
 }
 
 type Post struct {
-	Type      string // var/jsonpath var/xpath var/header assert/response
-	Mapping   []KV
-	Headers   []KV
-	HasHdr    bool
-	Body      []string
-	HasBody   bool
-	Status    *int
-	SizeVal   *int
-	SizeOp    string
-	Payload   []string // grpc
-	HasPayl   bool
+	Type       string // var/jsonpath var/xpath var/header assert/response
+	Mapping    []KV
+	Headers    []KV
+	HasHdr     bool
+	Body       []string
+	HasBody    bool
+	Status     *int
+	SizeVal    *int
+	SizeOp     string
+	Payload    []string // grpc
+	HasPayl    bool
 	HasMapping bool
 }
 
@@ -1005,6 +1005,10 @@ func classify(d Desc) string {
 func runDesc(res *vkit.Result, d Desc, rng *rand.Rand, idx int) {
 	seq++
 	base := fmt.Sprintf("/c16/case-%d", seq)
+	if seq%2 == 0 {
+		// the same file names again and again, as when a user edits ammo.hcl between runs
+		base = "/c16/ammo"
+	}
 	hclText, yamlText := d.HCL(rng), d.YAML()
 	hp, yp := base+".hcl", base+".yaml"
 	_ = vkit.WriteMemAt(hp, []byte(hclText))
